@@ -104,8 +104,13 @@ class Facts:
     def __init__(self, path, canonical=True):
         with open(path) as fh:
             self.j = json.load(fh)
-        from . import canon
-        self.renames = canon.canonicalise(self.j) if canonical else []
+        from . import canon, inline
+        self.renames = []
+        if canonical:
+            ref = canon.load_reference()
+            self.renames = canon.canonicalise(self.j, ref)
+            self.renames += inline.inline_new_helpers(self.j, ref)
+            self.renames += inline.expand_combinators(self.j)
         self.meta = self.j['meta']
         self.bodies = {}
         self.body_list = []
